@@ -191,9 +191,14 @@ theorem inv_pathFin_falsy {st : St} (hi : Inv st) (s : Sd) (e : Nat) (v : Option
       · rw [if_pos hh]; obtain ⟨a, b, _⟩ := hh; subst a; subst b; exact ⟨rfl, rfl⟩
       · rw [if_neg hh]; exact ⟨rfl, rfl⟩
 
-theorem updateKids_skip_eq (setF : SetF) (cfg : Cfg) (s : Sd) (e : Nat) (prior : Option Path.Str) (pth : Path.Str) (st : St)
-    (h : (st.side e s).otype ≠ .dir ∨ prior = none) : updateKids setF cfg s e prior pth st = (.ok (), st) := by
-  simp only [updateKids, M.bind_apply, getSt_apply]
+theorem finallyM_apply {α} (m : M α) (f : St → St) (st : St) : finallyM m f st = ((m st).1, f (m st).2) := by
+  unfold finallyM; cases m st; rfl
+
+theorem pushpop (st : St) (e : Nat) : ({ ({ st with moving := e :: st.moving } : St) with moving := (e :: st.moving).tail } : St) = st := rfl
+
+theorem updateKidsOf_skip_eq (setF : SetF) (cfg : Cfg) (s : Sd) (e : Nat) (prior : Option Path.Str) (pth : Path.Str) (st : St)
+    (h : (st.side e s).otype ≠ .dir ∨ prior = none) : updateKidsOf setF cfg s e prior pth st = (.ok (), st) := by
+  simp only [updateKidsOf, M.bind_apply, getSt_apply]
   cases prior with
   | none => rfl
   | some pr =>
@@ -201,6 +206,15 @@ theorem updateKids_skip_eq (setF : SetF) (cfg : Cfg) (s : Sd) (e : Nat) (prior :
     · have : ((st.side e s).otype == OType.dir) = false := by simpa using h
       simp [whenM, this]
     · cases h
+
+theorem updateKids_skip_eq (setF : SetF) (cfg : Cfg) (s : Sd) (e : Nat) (prior : Option Path.Str) (pth : Path.Str) (st : St)
+    (h : (st.side e s).otype ≠ .dir ∨ prior = none) : updateKids setF cfg s e prior pth st = (.ok (), st) := by
+  unfold updateKids
+  rw [finallyM_apply]
+  simp only [M.bind_apply, modifySt_apply]
+  have h' : (({ st with moving := e :: st.moving } : St).side e s).otype ≠ .dir ∨ prior = none := h
+  rw [updateKidsOf_skip_eq setF cfg s e prior pth { st with moving := e :: st.moving } h']
+  rfl
 
 /-- the `some (c :: p)` branch of `_change_path` after the pop, given what `_update_kids` does -/
 theorem changePath_some_tr (cfg : Cfg) (n : Nat) (e : Nat) (s : Sd) (c : Char) (p : Path.Str) (st : St)
